@@ -163,6 +163,84 @@ def line_count(s):
     return s.count("\n")
 
 
+def local_decls(fn_text):
+    """R16: the function's `let [mut] NAME [: T] = ..;` statements in textual order as (name, shape); the shape is the
+    statement's significant tokens with every declared name replaced by its ordinal"""
+    toks = tokenize(fn_text)
+    sig = [t for t in toks if t.kind not in ("ws", "comment")]
+    decls = []
+    i = 0
+    while i < len(sig):
+        if sig[i].kind == "ident" and sig[i].text == "let":
+            j = i + 1
+            if j < len(sig) and sig[j].text == "mut":
+                j += 1
+            if j + 1 < len(sig) and sig[j].kind == "ident" and sig[j + 1].text in ("=", ":", ";"):
+                # statement end: `;` at depth 0
+                d = 0
+                k = j + 1
+                while k < len(sig):
+                    x = sig[k].text
+                    if x in ("(", "[", "{"):
+                        d += 1
+                    elif x in (")", "]", "}"):
+                        d -= 1
+                    elif x == ";" and d == 0:
+                        break
+                    k += 1
+                decls.append((sig[j].text, i, j, k))
+        i += 1
+    names = [d[0] for d in decls]
+    out = []
+    for (name, i, j, k) in decls:
+        shape = []
+        for q in range(i, min(k + 1, len(sig))):
+            t = sig[q]
+            if t.kind == "ident" and t.text in names:
+                shape.append("$%d" % names.index(t.text))
+            else:
+                shape.append(t.text)
+        out.append([name, " ".join(shape)])
+    return out
+
+
+def rename_map(baseline, current, fn_text, spec):
+    """R16: {old: new} if the function declares the same locals in the same order with the same statements and only names differ"""
+    if baseline is None or len(baseline) != len(current) or baseline == current:
+        return {}
+    if any(b[0] != c[0] and b[1] != c[1] for b, c in zip(baseline, current)):   # a renamed declaration must be otherwise identical
+        return {}
+    m = {b[0]: c[0] for b, c in zip(baseline, current) if b[0] != c[0]}
+    if not m:
+        return {}
+    idents = set(t.text for t in tokenize(fn_text) if t.kind == "ident")
+    if any(old in idents for old in m):          # the old name is still in use: not a plain rename
+        return {}
+    if len(set(m.values())) != len(m):
+        return {}
+    spec_idents = set()
+    for c in spec.clauses:
+        for tx in (c.body or "", c.name or ""):
+            spec_idents |= set(t.text for t in tokenize(tx) if t.kind == "ident")
+    if any(new in spec_idents for new in m.values()):   # would collide with a name the contract already uses
+        return {}
+    return m
+
+
+def rename_spec(spec, m):
+    def sub(tx):
+        if not tx:
+            return tx
+        return "".join(m.get(t.text, t.text) if t.kind == "ident" else t.text for t in tokenize(tx))
+    ns = FnSpec(spec.path, spec.src)
+    ns.returns, ns.attrs, ns.replace_body = spec.returns, list(spec.attrs), spec.replace_body
+    for c in spec.clauses:
+        keep_name = c.kind in ("requires", "ensures", "decreases", "inv", "invxb", "loopensures", "loopdec", "inherit", "loop",
+                               "fn-start", "fn-end", "body-start", "body-end", "pre-loop", "post-loop", "rawloop")
+        ns.clauses.append(Clause(c.kind, c.arg, list(c.tags), c.name if keep_name else sub(c.name), sub(c.body), c.src))
+    return ns
+
+
 def rewrite_accessor(text, acc, field):
     """R14: `acc(E)` -> `E.field` (balanced parentheses; E is an identifier possibly followed by index brackets)"""
     out = []
@@ -610,6 +688,9 @@ def strip_attrs(toks, item):
 def build(repo, contracts_dir, out_dir, vacuity=False, only=None):
     S = Source(repo)
     cfg = json.load(open(os.path.join(contracts_dir, "units.json")))
+    lb = os.path.join(contracts_dir, "locals.json")
+    locals_base = json.load(open(lb)) if os.path.exists(lb) else {}
+    locals_now = {}
     specs = {}
     order = []
     gl = []
@@ -794,6 +875,13 @@ def build(repo, contracts_dir, out_dir, vacuity=False, only=None):
                 txt = txt.replace(a, b)
                 flog.append({"rule": "R7", "subst": [a, b]})
             sp = specs.get(spec_key) or FnSpec(spec_key, "-")
+            # R16: hints follow a plain rename of local variables
+            cur_locals = local_decls(txt)
+            locals_now[spec_key] = cur_locals
+            rm = rename_map(locals_base.get(spec_key), cur_locals, txt, sp) if spec_key in specs else {}
+            if rm:
+                sp = rename_spec(sp, rm)
+                flog.append({"rule": "R16", "renamed": rm})
             for a in sp.attrs:
                 W.emit("    " + a + "\n")
             if rename is None and p in cfg.get("external_body", {}):
@@ -858,7 +946,7 @@ def build(repo, contracts_dir, out_dir, vacuity=False, only=None):
     meta = {"functions": fn_records, "obligations": W.obligations,
             "source_sha256": {"engine.rs": hashlib.sha256(S.engine.encode()).hexdigest(),
                               "lib.rs": hashlib.sha256(S.lib.encode()).hexdigest()},
-            "macros": sorted(S.macros)}
+            "macros": sorted(S.macros), "locals": locals_now}
     with open(os.path.join(out_dir, name.replace(".rs", ".map.json")), "w") as f:
         json.dump(meta, f, indent=1)
     return meta
@@ -870,9 +958,13 @@ def main():
     ap.add_argument("--contracts", default="/verif/contracts")
     ap.add_argument("--out", required=True)
     ap.add_argument("--vacuity", action="store_true")
+    ap.add_argument("--record-locals", action="store_true",
+                    help="write contracts/locals.json (R16 baseline: the local declarations of every function under contract)")
     a = ap.parse_args()
     try:
         meta = build(a.repo, a.contracts, a.out, a.vacuity)
+        if a.record_locals:
+            json.dump(meta["locals"], open(os.path.join(a.contracts, "locals.json"), "w"), indent=1, sort_keys=True)
     except ExtractError as e:
         print("EXTRACT-ERROR: %s" % e, file=sys.stderr)
         sys.exit(2)
